@@ -22,3 +22,7 @@ chk('C19', 'model_checking',
     'refine_grading(sigma in {1,1.5,2}, K=4) is applied, on a fresh replay, at every fingerprint-distinct state of the BFS graphs rooted at the shipped curves (depth 2-4 quick, up to 6 thorough) and at shallow graphs rooted at directed deep histories; it must return within a rigorous bisection bound, only refine, put every leaf in the window (exact rational comparison) and keep all C02/C10 invariants.',
     'Trusted: reference invariants; the bisection bound derivation in props/C19.py; custom anisotropic root grids excluded (documented non-goal).',
     'explicit-state model checking of the implementation (grading as a leaf transition at every reachable state, termination by rigorous horizon)', 'DESIGN.md 4/C19', 'E1-mesh-explorer')
+chk('C18', 'exploration',
+    'Complete enumeration of three finite spaces: (1) the five shipped curves on a parameter alphabet (break points, +-1 ulp, dyadic points, all in-piece pairs) for piece lengths, arc length, continuity, closedness, eval vs piece; (2) every simple rectilinear lattice polygon in {0..3}^2 with <= 6/8 vertices, all start vertices and orientations, through the polygon constructor (reject or satisfy everything); (3) MeshParametrized for every curve x 8 time grids (1..6 slabs, irregular) x 3 space grids x every leaf-set-distinct state of the bisection BFS to depth 1/2: piece identity of every element, >=3 elements per slab, two elements never touch twice.',
+    'Continuous parameters are represented by the alphabet; polygons by the lattice family; mesh histories by the depth bound.',
+    'exhaustive enumeration of bounded configuration spaces and BFS over bisection histories on the real objects', 'DESIGN.md 4/C18', 'E1-mesh-explorer')
